@@ -725,7 +725,7 @@ func observe(w mon.Sink, wk *mon.Worker, class, id string, in []byte, desc strin
 	}
 	w.Eval(fp + "/" + id)
 	w.Count("outcome_"+outcome, 1)
-	if class == "widths" || class == "grid" || class == "bitlen" {
+	if class == "widths" || class == "grid" || class == "bitlen" || class == "gridcut" || class == "refcount" {
 		w.Count(class+"_"+outcome, 1)
 	}
 }
@@ -927,6 +927,106 @@ func headerGrid(idx int) ([]byte, string) {
 	return r.bytes(), fmt.Sprintf("grid %v", d)
 }
 
+// gridCutCase: the grid inputs with their last 1..gridCuts bytes cut off: the grid writes complete checksums and
+// complete cell data only, so "the header is all there, the counters are consistent, but fewer bytes follow
+// than the checksum / the root list / the index need" (e.g. a checksummed bag of one tiny cell with two
+// bytes left after the header) is reached by cutting its tail. At quick only the inputs that carry the CRC
+// flag and cuts of up to 6 bytes; at thorough all inputs and cuts of up to 12.
+const gridCuts = 12
+
+func gridCutCase(idx int, all bool) ([]byte, string) {
+	g, cut := idx/gridCuts, idx%gridCuts+1
+	d0, d1 := g%gridRadix[0], g/gridRadix[0]%gridRadix[1]
+	hasCRC := d0 == 2 || d0 == 0 && d1&2 != 0
+	if !all && (!hasCRC || cut > 6) {
+		return nil, ""
+	}
+	b, desc := headerGrid(g)
+	if cut >= len(b) {
+		return nil, ""
+	}
+	return b[:len(b)-cut], fmt.Sprintf("%s cut %d", desc, cut)
+}
+
+// refCountCase: descriptors that announce 5, 6 or 7 references with a CONSISTENT layout behind them: the
+// stored hashes and depths the with-hashes bit promises for the level mask (one hash + depth per level and
+// one more), the data, and that many valid forward references - for every level mask, with and without
+// the with-hashes and exotic bits, as root, as a child and as the last-but-leaves cell. (The node software
+// knows d1 & 0x1f == 0x17 as the descriptor of an absent cell; a parser that lets any of these through
+// must still hand out cells with at most four references.)
+var refCountRadix = []int{8 /*mask*/, 3 /*5,6,7 refs*/, 2 /*with hashes*/, 2 /*exotic*/, 3 /*position*/, 3 /*reference targets*/, 2 /*data*/}
+
+var refCountCases = func() int {
+	n := 1
+	for _, r := range refCountRadix {
+		n *= r
+	}
+	return n
+}()
+
+func refCountCase(seed uint64, idx int) ([]byte, string) {
+	d := make([]int, len(refCountRadix))
+	x := idx
+	for i, r := range refCountRadix {
+		d[i] = x % r
+		x /= r
+	}
+	rng := mon.NewRng(seed ^ uint64(idx)*0x9e3779b97f4a7c15 ^ 0x4ef5)
+	mask, nrefs := byte(d[0]), d[1]+5
+	liar := rawCell{d1: byte(nrefs) | mask<<5}
+	if d[2] == 1 {
+		liar.d1 |= 16
+		k := 1
+		for m := mask; m != 0; m &= m - 1 {
+			k++
+		}
+		liar.pre = rng.Bytes(k * 34)
+		for i := 32 * k; i < len(liar.pre); i += 2 {
+			liar.pre[i] = 0 // small stored depths
+		}
+	}
+	if d[3] == 1 {
+		liar.d1 |= 8
+		liar.data, liar.d2 = append([]byte{byte(rng.Range(1, 4))}, rng.Bytes(34)...), 70
+	} else if d[6] == 1 {
+		liar.data, liar.d2 = rng.Bytes(5), 10
+	}
+	// bag: [parent?] liar leaf*8
+	var cells []rawCell
+	first := 0
+	switch d[4] {
+	case 1: // under an honest parent
+		cells = append(cells, rawCell{d1: 1, d2: 2, data: []byte{0x11}, refs: []uint64{1}})
+		first = 1
+	case 2: // under two honest ancestors, referenced twice
+		cells = append(cells, rawCell{d1: 2, d2: 2, data: []byte{0x22}, refs: []uint64{1, 2}}, rawCell{d1: 1, d2: 0, refs: []uint64{2}})
+		first = 2
+	}
+	leaf0 := first + 1
+	for i := 0; i < nrefs; i++ {
+		t := uint64(leaf0 + i)
+		switch d[5] {
+		case 1: // all to one and the same cell
+			t = uint64(leaf0)
+		case 2: // the last one out of range
+			if i == nrefs-1 {
+				t = uint64(leaf0 + 8)
+			}
+		}
+		liar.refs = append(liar.refs, t)
+	}
+	cells = append(cells, liar)
+	for i := 0; i < 8; i++ {
+		cells = append(cells, rawCell{d1: 0, d2: 2, data: []byte{byte(i)<<1 | 1}})
+	}
+	r := &rawBoc{magic: rboc.MagicGeneric, flagByte: -1, size: 1, off: 2, roots: 1, rootList: []uint64{0}, cellsRaw: cells, cells: uint64(len(cells))}
+	if idx%5 == 0 {
+		r.crc = 1
+	}
+	r.fix()
+	return r.bytes(), fmt.Sprintf("refcount=%d mask=%d with_hashes=%d exotic=%d position=%d targets=%d", nrefs, mask, d[2], d[3], d[4], d[5])
+}
+
 // bitLenCase: a valid bag whose interesting cell has exactly n data bits, n = 0..1023 (the parser gives
 // every cell a 1023-bit capacity, so the last few lengths leave 0, 1, 2 ... bits of room for whatever a
 // post-call appends, e.g. the completion tag of the Fift form), as a root, as a child and as an exotic
@@ -1126,13 +1226,19 @@ func worker(w *mon.Worker) {
 			in, desc = bitLenCase(w.Seed, k)
 		} else if j.Class == "widths" {
 			in, desc = widthCase(w.Seed, k)
+		} else if j.Class == "gridcut" {
+			if in, desc = gridCutCase(k, w.Thorough()); in == nil {
+				continue
+			}
+		} else if j.Class == "refcount" {
+			in, desc = refCountCase(w.Seed, k)
 		} else {
 			in, desc = mutate(j.Class, corp[j.Seed], j.Seed, k, corp, w.Seed)
 		}
 		id := fmt.Sprintf("%d/%d", j.Seed, k)
 		// the generated classes are small and full of corner bags (no root, several roots, every width): all of
 		// them, and one in 128 of the others (up to 64 KiB), also go through the rarely used entry points
-		deep := j.Class == "grid" || j.Class == "bitlen" || j.Class == "widths" || (k%128 == 0 && len(in) <= 64<<10)
+		deep := j.Class == "grid" || j.Class == "bitlen" || j.Class == "widths" || j.Class == "refcount" || (k%128 == 0 && len(in) <= 64<<10)
 		observe(w, w, j.Class, id, in, desc, deep)
 		if k%97 == 0 {
 			observeText(w, w, id, in, mon.NewRng(uint64(k)))
@@ -1156,7 +1262,7 @@ func main() {
 		tier = os.Args[1]
 	}
 	R := mon.Start("C07", tier)
-	R.Rule = "inputs = every truncation and every single-byte substitution of 40 small valid BOCs (all header variants, written by the reference writer), truncations/header substitutions of larger and real BOCs, random multi-byte edits, splices, a grid of small headers, a sweep of every bit length, valid bags at every index width 1..4 x offset width 1..8, adversarial headers from a lying writer (sizes, counts, offsets, root/ref indices self/backward/out of range, ref count 5-7, with-hashes without room, malformed exotic cells, deep chains, diamond ladders, wrong CRC, trailing bytes) and random bytes behind each magic; every input runs in a child process (ulimit -v) under panic/fatal/CPU/allocation monitors, returned roots are walked for soundness and Hash/ToBoc/ToString run under the same monitors; on the generated classes and one input in 128 also Hash256/HashString, ToBocCustom (index, CRC, cache bits), ToBocCustomWithHasher with a hasher shared by the roots, MarshalJSON, the text serialisers and the bit printers; every accepted bag with no or several roots (and the same sample) goes through DeserializeSingleRootBoc / SinglRootHex / SinglRootBase64 / Cell.UnmarshalJSON; one input in 97 through the hex / base64 / JSON entry points, clean and damaged (odd length, empty, blanks, other alphabets, unbalanced quotes); non-trivial = an input that was parsed under the monitors; distinct = distinct (mutation class, case id, outcome/error class)"
+	R.Rule = "inputs = every truncation and every single-byte substitution of 40 small valid BOCs (all header variants, written by the reference writer), truncations/header substitutions of larger and real BOCs, random multi-byte edits, splices, a grid of small headers and the same inputs with their last bytes cut (1..6 bytes of those with the CRC flag at quick, 1..12 of all at thorough), descriptors announcing 5-7 references with a consistent layout (stored hashes for every level mask, data, valid forward references), a sweep of every bit length, valid bags at every index width 1..4 x offset width 1..8, adversarial headers from a lying writer (sizes, counts, offsets, root/ref indices self/backward/out of range, ref count 5-7, with-hashes without room, malformed exotic cells, deep chains, diamond ladders, wrong CRC, trailing bytes) and random bytes behind each magic; every input runs in a child process (ulimit -v) under panic/fatal/CPU/allocation monitors, returned roots are walked for soundness and Hash/ToBoc/ToString run under the same monitors; on the generated classes and one input in 128 also Hash256/HashString, ToBocCustom (index, CRC, cache bits), ToBocCustomWithHasher with a hasher shared by the roots, MarshalJSON, the text serialisers and the bit printers; every accepted bag with no or several roots (and the same sample) goes through DeserializeSingleRootBoc / SinglRootHex / SinglRootBase64 / Cell.UnmarshalJSON; one input in 97 through the hex / base64 / JSON entry points, clean and damaged (odd length, empty, blanks, other alphabets, unbalanced quotes); non-trivial = an input that was parsed under the monitors; distinct = distinct (mutation class, case id, outcome/error class)"
 	R.Assume(fmt.Sprintf("allocation bound for the parse: %d + %d x len(input) bytes (a minimal cell is 2 input bytes and costs a few hundred bytes of Go objects); CPU bound %v s per input", allocBase, allocPerByte, cpuBound))
 	R.Assume("Hash/ToBoc returning an error on a sound but semantically invalid cell (bad exotic cell) is legal; a panic is not")
 	corp := corpus(R.Seed(), mon.RepoRoot())
@@ -1225,6 +1331,8 @@ func main() {
 	add("grid", 0, gridSize, 4000)
 	add("bitlen", 0, 1024*bitLenVariants, 2048)
 	add("widths", 0, widthCases, 2048)
+	add("gridcut", 0, gridSize*gridCuts, 40000)
+	add("refcount", 0, refCountCases, 2048)
 	add("adversarial", 0, R.N(12000, 400000), 4000)
 	add("random", 0, R.N(6000, 300000), 20000)
 	R.Extra("jobs", len(jobs))
